@@ -98,10 +98,8 @@ def run(tier, replay=None):
         chk.sample({"id": keep[-1][0]['id'], "verdict": verd[len(keep) - 1]})
         chk.assumptions += ["DATA words and the exit stub address are taken from xcmp's -S listing (cross-checked against the binary by C17)",
                             "programs overflowing the stack budget are outside the property's domain; depths are chosen inside it"]
-        if len(keep) < 500:
-            raise vlib.MachineryError("vacuity: too few programs checked (%d)" % len(keep))
-        if sum(v['exits'] for v in verd[:-1]) < 10:
-            raise vlib.MachineryError("vacuity: main never returned in the sample")
+        chk.vacuity(len(keep) < 500, "too few programs checked (%d)" % len(keep))
+        chk.vacuity(sum(v['exits'] for v in verd[:-1]) < 10, "main never returned in the sample")
     finally:
         shutil.rmtree(d, ignore_errors=True)
     return chk.finish()
